@@ -72,6 +72,14 @@ NEEDS = {
     "C20-s15": ("C20", "Index::validate_checksum selects files by Path::file_stem() == segment uuid: <uuid>.<opstamp>.del is left out", "a committed segment with deletes and a damaged .del file"),
     "C05-s15": ("C05", "ManagedDirectory::garbage_collect treats LockBusy on the meta lock as a stale lock file and collects anyway", "the default lock-file protocol (RamDirectory / custom directory), a reader of a second Index instance whose reload holds .tantivy-meta.lock for more than 10 s (100 x 100 ms), and a merge + collection meanwhile"),
     "C10-s15": ("C10", "register_file_as_managed holds the managed-paths lock only for the insertion and writes .managed.json from a cloned set afterwards", "two threads registering files at the same time, the first pre-empted while persisting: a stale list lands last, files of a committed segment are missing from .managed.json and become orphans after a restart"),
+    "C15-s16": ("C15", "sstable Streamer::advance tests the lower bound before updating the per-byte automaton state stack", "Dictionary::search(automaton) with a ge/gt lower bound, a key below the bound in the first loaded block sharing a prefix with the following in-range key: matches lost or spurious"),
+    "C16-s16": ("C16", "aggregate_infallible_expressions: the ShouldNot synthesis no longer requires default_op == Should", "exactly the shape `... OR -x AND y ...` without parentheses: `a OR -b AND c` is read as a OR c"),
+    "C12-s16": ("C12", "SumCombiner / DisjunctionMaxCombiner::clear() becomes `*self = Self::default()`: a cleared dis-max combiner loses its tie breaker", "a DisjunctionMaxQuery with a non-zero tie breaker, a document matching two disjuncts, more than 4096 doc ids past the first match of its segment"),
+    "C13-s16": ("C13", "Disjunction::advance returns as soon as minimum_matches_required clauses matched when the combiner is DoNothingCombiner", "minimum_number_should_match = m >= 2 evaluated by Disjunction, scoring disabled, a document matching at least 2*m should clauses: it is emitted twice"),
+    "C06-s16": ("C06", "SkipReader::block_max_score clamps the saturated term-frequency code 255 to 255 instead of decoding it as unbounded", "a posting list of at least 128 docs, a full block whose best document has tf above 255 and a threshold already above score(fieldnorm, 255)"),
+    "C07-s16": ("C07", "vint compress_unsorted loops `while to_encode > 128` instead of `>= 128`", "a term frequency of exactly 128, or a gap of exactly 128 (or 16384..=16511) between consecutive positions, in the incomplete last block of a posting list"),
+    "C08-s16": ("C08", "FastFieldsWriter::add_doc_value (tokenized text fast field) skips a token equal to the previous token of the same value", "a text fast field with a fast-field tokenizer and a value containing the same token twice in a row: `Bye bye love` comes back as [bye, love]"),
+    "C09-s16": ("C09", "CompactDoc::add_value skips object entries whose value is null", "a stored JSON object (any depth) with a null entry read back as TantivyDocument: {a: null, b: 1} comes back as {b: 1}"),
     "C08-s7": ("C08", "BitUnpacker::get_ids_for_value_range truncates the upper bound to 32 bits instead of clamping it", "a bit-packed column of width <= 32 and a range whose upper bound (after min/gcd normalisation) is >= 2^32 with low 32 bits below the matching values"),
 }
 
